@@ -87,6 +87,7 @@ StructOk(D) ==
   /\ D.isstdcnt \in {0, D.typecnt} /\ D.isutcnt \in {0, D.typecnt}
   /\ \A k \in 1..D.timecnt : D.tidx[k] < D.typecnt
   /\ \A k \in 1..D.typecnt : /\ D.types[k].ai < D.charcnt
+                             /\ Has(D.chars, 0, D.types[k].ai + 1, D.charcnt)      \* designations are NUL-terminated inside the block
                              /\ D.types[k].off > -86400 /\ D.types[k].off < 86400
   /\ \A k \in 2..D.timecnt : D.times[k - 1] \prec D.times[k]
   /\ D.version = 0 \/ D.hasfooter
